@@ -24,7 +24,13 @@ What is modelled
   bindings with independent options; quick: 500 of 3328), v0sched (<= 2 schedules with name / allowFailure x onStartup x
   <= 1 onKubernetesEvent binding, 545 documents, complete in quick), v0fault (3 base documents x the fault classes that
   exist in that format: unknown top-level key, v1 section without configVersion, configVersion: v0, onStartup type, bad
-  crontabs, unknown event names, allowFailure type).
+  crontabs, unknown event names, allowFailure type, unknown keys inside schedule / onKubernetesEvent items - `foo` and the
+  v1 keys queue / group / includeSnapshotsFrom / apiVersion / executeHookOnEvent -, and the ten invalid label selectors
+  (the v1 classes + NotIn without values) under `selector`).
+  Open known findings (known_findings.json; the reference says "reject", the loader accepts - the check prints
+  KNOWN-FINDING and does not fail for exactly these signatures): C10/v0-accepted/unknown-item-key/{kube,schedule} (unknown
+  item keys of a legacy document are silently ignored) and C10/v0-accepted/invalid-selector/<class> (the legacy `selector`
+  is not validated at load time). Every other rejected-by-the-reference legacy document that loads is a violation.
 
 What the oracle demands (real code, harness/cmd/hookconfig)
   every case is rendered as YAML (seeded style: plain or quoted scalars, block or flow leaf sequences, key order) and
@@ -32,7 +38,8 @@ What the oracle demands (real code, harness/cmd/hookconfig)
     * no panic, the call returns (a hang - 3 s of CPU time burnt inside one call - is a failure: the document is
       neither rejected nor loaded),
     * YAML and JSON give the same verdict and the same projected configuration,
-    * expected "reject" (faults, unknown / ambiguous snapshot names)  =>  an error,
+    * expected "reject" (faults, unknown / ambiguous snapshot names)  =>  an error (signature C10/accepted/<class>; for
+      faults of legacy documents C10/v0-accepted/<class>),
     * expected configuration  =>  no error and the projection (ids, debug names, labels, pointers erased) equals TLC's record
       (signature C10/mismatch<path>; for legacy documents C10/v0-mismatch<path>, with the suffix /default when the
       differing option is not declared in the document).
@@ -43,15 +50,10 @@ What the oracle demands (real code, harness/cmd/hookconfig)
 
 What is excluded and why
   * a missing configVersion on a document that has only onStartup/schedule is the legacy v0 format, not a fault;
-  * legacy format: unknown keys inside schedule / onKubernetesEvent items (its schema says `type: object` and nothing
-    else: queue, group, includeSnapshotsFrom of a v1 schedule are silently ignored there), invalid label selectors (not
-    validated at load time), a missing `kind`, an explicitly empty `event: []`, `namespaceSelector` with matchNames next
-    to any: true or with any: false alone, empty `schedule: []` / `onKubernetesEvent: []` (accepted) - the repository has
-    no documentation of that format any more and the statement does not decide them;
-  * `settings` with only one of its two parameters (the documentation shows both, the loader rejects one alone with a
-    misleading message; the statement is silent);
-  * undocumented fields the schema accepts (waitForSynchronization, resynchronizationPeriod, matchConditions), empty
-    strings as names / queues / groups, repeated names inside one includeSnapshotsFrom list, duplicate keys;
+  * legacy format, statement silent / observed only: a missing `kind` (accepted, kind ""), an explicitly empty `event: []`
+    (same as absent), `namespaceSelector` with matchNames next to any: true or with any: false alone, empty `schedule: []` /
+    `onKubernetesEvent: []` (accepted) - the repository has no documentation of that format any more and the statement
+    does not decide them;
   * two kubernetes bindings with the same effective name are legal as long as no binding refers to that name
     (explicitly or through its group); a reference makes the document ambiguous => expected "reject";
   * container-instead-of-scalar type errors (e.g. a string where an array is expected): the documentation itself shows
@@ -298,7 +300,7 @@ MANIFEST = {
              "documentation: grammar validator, Effective = reject | effective configuration with the documented defaults, "
              "group/includeSnapshotsFrom resolution, ~100 single-fault mutation classes; legacy documents without configVersion with every "
              "option of that format - schedule name/allowFailure, onKubernetesEvent name/event/selector/objectName/namespaceSelector/jqFilter/"
-             "allowFailure - and ~15 fault classes) and checks FaithfulLoad/Defaults/LegacyLoad/FaultRejected/GroupSnapshots on every case; every case is "
+             "allowFailure - and ~30 fault classes incl. unknown item keys and invalid selectors) and checks FaithfulLoad/Defaults/LegacyLoad/FaultRejected/GroupSnapshots on every case; every case is "
              "rendered as YAML and as JSON, loaded with the real HookConfig.LoadAndValidate, projected to the abstract effective record and "
              "compared with TLC's expectation and with each other; every faulted document must be rejected; panics and hangs are failures.",
         note="Bounds: <= 2 bindings per kind, options on/off in strata (scalar options, selectors, names x groups x includes, schedules/settings, "
@@ -306,8 +308,10 @@ MANIFEST = {
              "schedules), catalogues for valid/invalid crontabs, selectors, versions. The 'any byte string never panics' clause is "
              "exploration only: seeded byte-level corruptions (truncate, flip, delete, splice, duplicate keys, YAML tokens) of rendered model "
              "documents with a no-panic / returns / error-or-config oracle, reported in coverage.byte_level; it is not decided by the "
-             "specification. Partial `settings`, undocumented schema fields, container-vs-scalar type errors, and for the legacy format unknown "
-             "keys inside items / selector validation / empty event lists are outside the domain.",
+             "specification. Partial `settings`, undocumented schema fields, container-vs-scalar type errors, and for the legacy format a missing "
+             "kind / an empty event list are outside the domain. Two open known findings (legacy format only): unknown keys inside "
+             "schedule / onKubernetesEvent items are silently ignored (C10/v0-accepted/unknown-item-key/*), `selector` is not validated at "
+             "load time (C10/v0-accepted/invalid-selector/*).",
         technique="TLA+ reference function + TLC exhaustive enumeration of the bounded input domain; case replay (YAML and JSON) into the real loader; "
                   "seeded byte-level exploration",
         category="model_checking",
